@@ -4499,6 +4499,24 @@ func ruleTxCompatible(c *Ctx) {
 			if !mentionsConflicts {
 				return true
 			}
+			// the set that is looked up has to be complete when the lookup starts: the lookup loop itself must not be
+			// the one that fills it (a conflict listed before its target would not be seen)
+			fillsHere := false
+			ast.Inspect(rs.Body, func(x ast.Node) bool {
+				if as, ok := x.(*ast.AssignStmt); ok {
+					for _, l := range as.Lhs {
+						if ix, ok := ast.Unparen(l).(*ast.IndexExpr); ok {
+							if _, isMap := info.TypeOf(ix.X).Underlying().(*types.Map); isMap && f.Mentions(ix.Index, nil)[symTxHashM] {
+								fillsHere = true
+							}
+						}
+					}
+				}
+				return true
+			})
+			if fillsHere {
+				return true
+			}
 			ast.Inspect(rs.Body, func(x ast.Node) bool {
 				is, ok := x.(*ast.IfStmt)
 				if !ok {
@@ -6227,4 +6245,228 @@ func canonicalNodeBytes(c *Ctx) {
 	} else {
 		c.Fail("canonical-node-bytes", c.P.Pos(restores[0].call.Pos()), "a path of AddMPTNodes reaches restoreNode without the comparison of the received bytes with the node's canonical encoding", path...)
 	}
+}
+
+// ---------------------------------------------------------------------------
+// write-before-callout (C05, C01) - a native that pays out with the payment callback switched on hands control to
+// the receiver's onNEP17Payment, which can call the native back. Everything the native has decided by then (the voter's
+// account with its new vote and balance height) has to be in storage before the callout: a storage write that sits
+// after the callout - behind it in the same function, or inside a function literal the function creates (the
+// continuation runs after the callee returned) - writes back a record computed before the callback and overwrites
+// whatever the callback did (NEO supply no longer equals the sum of balances, a tally goes negative).
+func ruleWriteBeforeCallout(c *Ctx) {
+	sources, ok := paymentCallbackSources(c)
+	if !ok {
+		c.Lost("write-before-callout.anchor", "the payment-callback switch was not found")
+		return
+	}
+	writers := map[string]bool{"pkg/core/dao.(*Simple).PutStorageItem": true, "pkg/core/dao.(*Simple).PutBigInt": true, "pkg/core/dao.(*Simple).DeleteStorageItem": true, "pkg/core/dao.(*Simple).PutStorageConvertible": true}
+	n := 0
+	var fns []*ssa.Function
+	for fn := range sources {
+		fns = append(fns, fn)
+	}
+	sort.Slice(fns, func(i, j int) bool { return FnKey(fns[i]) < FnKey(fns[j]) })
+	for _, fn := range fns {
+		obj, _ := fn.Object().(*types.Func)
+		if obj == nil {
+			continue
+		}
+		fd := c.P.DeclOf(obj)
+		if fd == nil || fd.Decl.Body == nil {
+			continue
+		}
+		n++
+		f := c.P.NewFuncCFG(fd)
+		// the callout: the call recorded as the source
+		var callPos token.Pos
+		ast.Inspect(fd.Decl.Body, func(x ast.Node) bool {
+			if ce, ok := x.(*ast.CallExpr); ok && c.P.Pos(ce.Pos()) == sources[fn] {
+				callPos = ce.Pos()
+			}
+			return true
+		})
+		key := "write-before-callout." + FuncKey(obj)
+		bad := ""
+		var lits []*ast.FuncLit
+		ast.Inspect(fd.Decl.Body, func(x ast.Node) bool {
+			if fl, ok := x.(*ast.FuncLit); ok {
+				lits = append(lits, fl)
+			}
+			return true
+		})
+		inLit := func(p token.Pos) bool {
+			for _, fl := range lits {
+				if fl.Pos() <= p && p < fl.End() {
+					return true
+				}
+			}
+			return false
+		}
+		ast.Inspect(fd.Decl.Body, func(x ast.Node) bool {
+			ce, ok := x.(*ast.CallExpr)
+			if !ok || !writers[f.calleeSym(ce)] {
+				return true
+			}
+			switch {
+			case inLit(ce.Pos()):
+				bad = fmt.Sprintf("%s inside a function literal (it runs after the callout returned) at %s", shortSym(f.calleeSym(ce)), c.P.Pos(ce.Pos()))
+			case callPos.IsValid() && ce.Pos() > callPos:
+				bad = fmt.Sprintf("%s behind the callout at %s", shortSym(f.calleeSym(ce)), c.P.Pos(ce.Pos()))
+			}
+			return true
+		})
+		if bad == "" {
+			c.OK(key, c.P.Pos(fd.Decl.Pos()), "every storage write of the function precedes the payment with the callback on")
+		} else {
+			c.Fail(key, c.P.Pos(fd.Decl.Pos()), fmt.Sprintf("%s pays out with the payment callback switched on (%s) and writes storage afterwards: %s - the record was computed before the receiver's onNEP17Payment ran and overwrites what a re-entrant call did in between", FuncKey(obj), sources[fn], bad))
+		}
+	}
+	c.Floor("functions that pay out with the callback on", n, 2)
+}
+
+// ---------------------------------------------------------------------------
+// fresh-under-lock (C06, C20) - a method that decides under its receiver's write lock ("is this header the next
+// one?") must take what it compares with inside the critical section. A value obtained from a *locked accessor* of
+// the same receiver before the Lock() - HeaderHeight() takes and releases the read lock - is a snapshot from before
+// the lock: two deliveries of one header both read the same height, both pass the test and the header is appended
+// twice. No local defined before the receiver's Lock() call from a method of the same receiver is mentioned in a
+// condition after it.
+func ruleFreshUnderLock(c *Ctx, pkgs ...string) {
+	in := map[string]bool{}
+	for _, p := range pkgs {
+		in[p] = true
+	}
+	n := 0
+	for _, fd := range c.P.AllFuncDecls() {
+		if fd.Decl.Body == nil || fd.Decl.Recv == nil || !in[pkgRel(fd.Pkg.Types)] || len(fd.Decl.Recv.List) == 0 || len(fd.Decl.Recv.List[0].Names) == 0 {
+			continue
+		}
+		info := fd.Pkg.TypesInfo
+		recv := info.ObjectOf(fd.Decl.Recv.List[0].Names[0])
+		// the first recv.<mutex>.Lock() call
+		lockPos := token.NoPos
+		ast.Inspect(fd.Decl.Body, func(x ast.Node) bool {
+			if lockPos.IsValid() {
+				return false
+			}
+			ce, ok := x.(*ast.CallExpr)
+			if !ok {
+				return true
+			}
+			sel, ok := ce.Fun.(*ast.SelectorExpr)
+			if !ok || sel.Sel.Name != "Lock" {
+				return true
+			}
+			if inner, ok := ast.Unparen(sel.X).(*ast.SelectorExpr); ok {
+				if id, ok := ast.Unparen(inner.X).(*ast.Ident); ok && info.ObjectOf(id) == recv {
+					if fn, ok := info.ObjectOf(sel.Sel).(*types.Func); ok && fn.Pkg() != nil && fn.Pkg().Path() == "sync" {
+						lockPos = ce.Pos()
+					}
+				}
+			}
+			return true
+		})
+		if !lockPos.IsValid() {
+			continue
+		}
+		n++
+		// locals defined before the lock from a method call on the receiver
+		stale := map[types.Object]string{}
+		ast.Inspect(fd.Decl.Body, func(x ast.Node) bool {
+			var lhs []ast.Expr
+			var rhs []ast.Expr
+			switch s := x.(type) {
+			case *ast.AssignStmt:
+				if s.Tok == token.DEFINE {
+					lhs, rhs = s.Lhs, s.Rhs
+				}
+			case *ast.ValueSpec:
+				for _, nm := range s.Names {
+					lhs = append(lhs, nm)
+				}
+				rhs = s.Values
+			}
+			if len(lhs) == 0 || len(rhs) == 0 || x.Pos() > lockPos {
+				return true
+			}
+			for i, l := range lhs {
+				id, ok := l.(*ast.Ident)
+				if !ok || i >= len(rhs) {
+					continue
+				}
+				ast.Inspect(rhs[i], func(y ast.Node) bool {
+					if ce, ok := y.(*ast.CallExpr); ok {
+						if sel, ok := ce.Fun.(*ast.SelectorExpr); ok {
+							if rid, ok := ast.Unparen(sel.X).(*ast.Ident); ok && info.ObjectOf(rid) == recv {
+								if mfn, isFn := info.ObjectOf(sel.Sel).(*types.Func); isFn && takesOwnLock(c, mfn) {
+									stale[info.ObjectOf(id)] = sel.Sel.Name
+								}
+							}
+						}
+					}
+					return true
+				})
+			}
+			return true
+		})
+		key := "fresh-under-lock." + FuncKey(fd.Obj)
+		bad := ""
+		ast.Inspect(fd.Decl.Body, func(x ast.Node) bool {
+			var cond ast.Expr
+			switch s := x.(type) {
+			case *ast.IfStmt:
+				cond = s.Cond
+			case *ast.ForStmt:
+				cond = s.Cond
+			}
+			if cond == nil || cond.Pos() < lockPos {
+				return true
+			}
+			ast.Inspect(cond, func(y ast.Node) bool {
+				if id, ok := y.(*ast.Ident); ok {
+					if m, ok := stale[info.ObjectOf(id)]; ok {
+						bad = fmt.Sprintf("%s (from %s(), taken before the lock) in the condition at %s", id.Name, m, c.P.Pos(cond.Pos()))
+					}
+				}
+				return true
+			})
+			return true
+		})
+		if bad == "" {
+			c.OK(key, c.P.Pos(fd.Decl.Pos()), "nothing read from the receiver before its Lock() is compared inside the critical section")
+		} else {
+			c.Fail(key, c.P.Pos(fd.Decl.Pos()), fmt.Sprintf("%s decides under its write lock with a value it read from the receiver before taking the lock: %s - two callers can both read the same value, both pass the test and both act (a header appended twice shifts every later index by one)", FuncKey(fd.Obj), bad))
+		}
+	}
+	c.Floor("methods taking their receiver's lock", n, 3)
+}
+
+// takesOwnLock: does the method lock (RLock/Lock) a mutex field of its own receiver? Such an accessor hands out a
+// snapshot: the value is current only until the accessor returns.
+func takesOwnLock(c *Ctx, fn *types.Func) bool {
+	fd := c.P.DeclOf(fn.Origin())
+	if fd == nil || fd.Decl.Body == nil || fd.Decl.Recv == nil || len(fd.Decl.Recv.List) == 0 || len(fd.Decl.Recv.List[0].Names) == 0 {
+		return false
+	}
+	info := fd.Pkg.TypesInfo
+	recv := info.ObjectOf(fd.Decl.Recv.List[0].Names[0])
+	found := false
+	ast.Inspect(fd.Decl.Body, func(x ast.Node) bool {
+		ce, ok := x.(*ast.CallExpr)
+		if !ok {
+			return true
+		}
+		sel, ok := ce.Fun.(*ast.SelectorExpr)
+		if !ok || (sel.Sel.Name != "RLock" && sel.Sel.Name != "Lock") {
+			return true
+		}
+		if inner, ok := ast.Unparen(sel.X).(*ast.SelectorExpr); ok {
+			if id, ok := ast.Unparen(inner.X).(*ast.Ident); ok && info.ObjectOf(id) == recv {
+				found = true
+			}
+		}
+		return true
+	})
+	return found
 }
